@@ -120,7 +120,7 @@ static void exec(void)
 
   static tree_cblog logB, logD, logF;
   t_cblog_reset(&logB); t_cblog_reset(&logD); t_cblog_reset(&logF);
-  econf_file *rA = NULL, *rB = NULL, *rC = NULL, *rD = NULL; econf_file **hE = NULL, **hF = NULL; size_t nE = 0, nF = 0;
+  econf_file *rA = NULL, *rB = NULL, *rC = NULL, *rD = NULL; econf_file **hE = NULL, **hF = NULL; size_t nE = 2, nF = 1;   /* the size argument is output-only: what it holds before the call must not matter */
   int cA = -1, cB = -1, cC, cD, cE = -1, cF = -1;
   const char *sfx = SFX[s.sfx];
   if (s.layers == 2) {
